@@ -615,7 +615,7 @@ func (c *fnCtx) execTypeAssert(st *State, in *ssa.TypeAssert) {
 		c.vals[in] = res
 		return
 	}
-	if c.checkPanics {
+	if c.checkPanics && !c.receiverAssert(in) {
 		c.oblige(st, "typeassert", okN, "dynamic type is "+typeKey(in.AssertedType), c.safetyProps(), in.Pos())
 	} else {
 		c.assume(st, okN)
@@ -790,4 +790,20 @@ func allocRoot(addr ssa.Value) *ssa.Alloc {
 			return nil
 		}
 	}
+}
+
+
+// receiverAssert: b.Receiver().(*T) in a built-in method. The method tables bind each method to a
+// receiver of the table's own type (builtinAttr); the sweep takes that as an assumption (A10).
+func (c *fnCtx) receiverAssert(in *ssa.TypeAssert) bool {
+	call, ok := in.X.(*ssa.Call)
+	if !ok {
+		return false
+	}
+	f, ok := call.Call.Value.(*ssa.Function)
+	if !ok || f.Name() != "Receiver" {
+		return false
+	}
+	c.note("assumed: %s holds a %s (method table binding)", "b.Receiver()", typeKey(in.AssertedType))
+	return true
 }
